@@ -367,12 +367,19 @@ class RegRef:
         elif name == "open_tx_pipe":
             addr = args[0]
 
-            def f(o):
+            def f(o, open0=False):
                 o._addr(TX_ADDR, addr)
                 if o.r[EN_AA] & 1 or lite:  # "RX pipe 0 is appropriated with the TX address ... when auto_ack is
                     o._addr(RX_ADDR_P0, addr)  # enabled for data pipe 0"
+                    if open0:
+                        o._b(EN_RXADDR, 1, 1)
             if len(addr) > 5:  # oversize: not a documented input; rejecting it or using the first 5 bytes are both safe
                 alt(("ValueError", "IndexError"))
+            if (self.r[EN_AA] & 1 or lite) and not self.r[CONFIG] & PRIM_RX:
+                # TX role with auto-ack on pipe 0: property C08 wants pipe 0 open on the TX address right after
+                # open_tx_pipe(); the documentation only promises that of `listen = False`.  Both are safe here
+                # (C08 decides which one is required).
+                alt(None, lambda o: f(o, True))
             alt(None, f)
         elif name == "start_carrier_wave":
             def f(o):  # PS appendix C: PWR_UP=1, PRIM_RX=0, CONT_WAVE=1, PLL_LOCK=1, CE high
@@ -514,7 +521,7 @@ class RegRef:
             "listen": {CONFIG: PWR_UP | PRIM_RX, EN_RXADDR: 1, RX_ADDR_P0: 0xFF},
             "open_rx_pipe": ({RX_ADDR_P0 + pipe: 0xFF, EN_RXADDR: 1 << pipe} if onepipe else {}),
             "close_rx_pipe": ({EN_RXADDR: 1 << pipe} if onepipe else {}),
-            "open_tx_pipe": {TX_ADDR: 0xFF, RX_ADDR_P0: 0xFF},
+            "open_tx_pipe": {TX_ADDR: 0xFF, RX_ADDR_P0: 0xFF, EN_RXADDR: 1},
             "start_carrier_wave": {RF_SETUP: CONT_WAVE | PLL_LOCK, CONFIG: PWR_UP | PRIM_RX, EN_RXADDR: 1},
             "stop_carrier_wave": {RF_SETUP: CONT_WAVE | PLL_LOCK, CONFIG: PWR_UP},
         }
